@@ -30,7 +30,7 @@ def planted_signature(rec):
     if c["Subst"]:
         if mode == "N":
             return ("undefined-parameter-not-reported:" + slot,
-                    "~p~ is undefined in the %s field (a documented substituted place) but the outcome is %s instead of an 'undefined parameter: ~p~' error at that line" % (slot, L.describe_obs(o)))
+                    "~p~ is undefined in the %s field written %r (a documented substituted place) but the outcome is %s instead of an 'undefined parameter: ~p~' error at that line" % (slot, c.get("Text"), L.describe_obs(o)))
         if c.get("Value"):
             return ("parameter-value-not-like-written-out:" + slot,
                     "~p~ in the %s field with p = %r (%s) does not read like the same configuration with %r written there: %s vs %s" % (
@@ -40,7 +40,7 @@ def planted_signature(rec):
                     "with definitions %s / %s the %s field does not read as if the winning value %r were written there: %s" % (
                         c["In"].get("Defines"), [l for l in c["In"]["Files"]["m.cfg"].split("\n") if l.startswith("parameter p ")], slot, c["Winner"], L.describe_obs(o)))
         return ("parameter-not-substituted:" + slot,
-                "~p~ in the %s field (a documented substituted place) is not replaced by the value %r: %s" % (slot, c["Winner"], L.describe_obs(o)))
+                "~p~ in the %s field written %r (a documented substituted place) is not replaced by the value %r: %s" % (slot, c.get("Text"), c["Winner"], L.describe_obs(o)))
     return ("parameter-substituted-in-untouched-field:" + slot,
             "~p~ in the %s field (documented as left untouched) does not behave as with p undefined: %s vs %s" % (
                 slot, L.describe_obs(o), L.describe_obs(rec["RefObs"])))
@@ -75,7 +75,7 @@ def run(tier, seed):
         "evaluations": summary["evaluations"],
         "distinct_nontrivial": summary["distinct_nontrivial"],
         "exhaustive": False,
-        "rule": "(1) EXHAUSTIVE over the template's 46 fields (15 the manual lists as substituted, 31 it does not: actor names after `watches` / `entails for` / in cast lines, member, signal, variable, action, mood names, collection mode, `expects like` target, commands, patterns, labels ...) x 7 definition modes {-D, default, both, undefined, two defaults, two -D, another parameter whose value is ~p~}: ~p~ planted in one field of a complete valid configuration (title, attention, author, parameter name/value, role name, extends, action name/command, spotlight, cleanup, signal name/pattern, cast role, multiplicity, with-environment, actor name, tempo, every-role of scene and watch, scene action, mood, storyline, edit and repeat-from regexps, repeat count and time, member / signal / variable names, label, the four expression kinds, modality, interpretation target, include name), each run twice (planted, reference); plus, for the 15 substituted fields, 2-8 further VALUES of p each (keywords of the field such as `unconstrained` / `always`, boundary numbers, other spellings) under -D and under a default, compared with the same text with the value written out; (2) random -D lists x `parameter` clauses x strings through the real parseDefines / parseCfg / preprocReplace, names and values containing ~, ~p~, =, empty; one quarter through a `title` clause of the whole parser; (3) include graphs (sequences in which a file of another directory has included something before a later clause elsewhere names a file that exists only there / also in a later -I directory — the search path is per clause; 10/12/25 sequential includes at one level, combs of depth 3-4 with 4 includes per level, a percent sign in file and directory names, chains to depth 12, diamonds, self/mutual/3-cycles, directories, missing, -I only, sibling shadowing, -I order, sibling of the includer not of the main file, `..`, names through parameters) files with and without a final newline (last line a clause, `end`, an include), with the reading order predicted by an independent recursive expander AND compared with the same text with every included file written in place of its clause (include = splice); corpus first. distinct_nontrivial = distinct file sets of at least 8 bytes + preprocessing cases.",
+        "rule": "(1) EXHAUSTIVE over the template's 46 fields (15 the manual lists as substituted, 31 it does not: actor names after `watches` / `entails for` / in cast lines, member, signal, variable, action, mood names, collection mode, `expects like` target, commands, patterns, labels ...) x 7 definition modes {-D, default, both, undefined, two defaults, two -D, another parameter whose value is ~p~}: ~p~ planted in one field of a complete valid configuration (title, attention, author, parameter name/value, role name, extends, action name/command, spotlight, cleanup, signal name/pattern, cast role, multiplicity, with-environment, actor name, tempo, every-role of scene and watch, scene action, mood, storyline, edit and repeat-from regexps, repeat count and time, member / signal / variable names, label, the four expression kinds, modality, interpretation target, include name), each run twice (planted, reference); plus, for the four expression fields, 9-13 texts with the reference glued to its neighbours (after <= >= == != ( + -, before ) *, two references back to back) under -D / default / undefined; plus, for the 15 substituted fields, 2-8 further VALUES of p each (keywords of the field such as `unconstrained` / `always`, boundary numbers, other spellings) under -D and under a default, compared with the same text with the value written out; (2) random -D lists x `parameter` clauses x strings through the real parseDefines / parseCfg / preprocReplace, names and values containing ~, ~p~, =, empty; one quarter through a `title` clause of the whole parser; (3) include graphs (sequences in which a file of another directory has included something before a later clause elsewhere names a file that exists only there / also in a later -I directory — the search path is per clause; 10/12/25 sequential includes at one level, combs of depth 3-4 with 4 includes per level, a percent sign in file and directory names, chains to depth 12, diamonds, self/mutual/3-cycles, directories, missing, -I only, sibling shadowing, -I order, sibling of the includer not of the main file, `..`, names through parameters) files with and without a final newline (last line a clause, `end`, an include), with the reading order predicted by an independent recursive expander AND compared with the same text with every included file written in place of its clause (include = splice); corpus first. distinct_nontrivial = distinct file sets of at least 8 bytes + preprocessing cases.",
         "samples": summary["samples"],
         "distribution": {k: summary[k] for k in ("counts", "outcomes", "by_stream", "error_classes", "faults", "graph_shapes", "clause_kinds",
                                                   "max_include_depth_reached", "skipped_escaping_root")},
